@@ -91,6 +91,66 @@ func runC12(c *Ctx) {
 	}
 	c.R.RequireMin("R12.1", "constant-position segment accesses in LoadLicenses", len(obls), 1)
 
+	// R12.12: a file that lies shallower than category/name/variant is left out, it is not an error: the branch taken when the
+	// path has too few segments goes on with the next file - it does not end the load (every license behind the stray
+	// AUTHORS.txt would be missing)
+	{
+		nG, bad := 0, ""
+		for _, f := range fns {
+			for _, b := range f.Blocks {
+				ifi, ok := b.Instrs[len(b.Instrs)-1].(*ssa.If)
+				if !ok {
+					continue
+				}
+				bo, ok := ifi.Cond.(*ssa.BinOp)
+				if !ok {
+					continue
+				}
+				lc, isCall := bo.X.(*ssa.Call)
+				k, isK := core.ConstInt(bo.Y)
+				if !isCall || !isK {
+					continue
+				}
+				bi, isB := lc.Call.Value.(*ssa.Builtin)
+				if !isB || bi.Name() != "len" || !strings.Contains(lc.Call.Args[0].Type().String(), "[]string") {
+					continue
+				}
+				// the "too few" side of the test
+				var few *ssa.BasicBlock
+				switch {
+				case bo.Op == token.LSS && k == 3, bo.Op == token.LEQ && k == 2, bo.Op == token.NEQ && k == 3:
+					few = b.Succs[0]
+				case bo.Op == token.GEQ && k == 3, bo.Op == token.GTR && k == 2, bo.Op == token.EQL && k == 3:
+					few = b.Succs[1]
+				default:
+					continue
+				}
+				nG++
+				seen := map[*ssa.BasicBlock]bool{}
+				for x := few; x != nil && !seen[x]; {
+					seen[x] = true
+					last := x.Instrs[len(x.Instrs)-1]
+					if ret, isRet := last.(*ssa.Return); isRet {
+						if n := len(ret.Results); n > 0 {
+							if cst, isC := ret.Results[n-1].(*ssa.Const); !isC || !cst.IsNil() {
+								bad = core.ShortFn(f) + " (" + p.Pos(ret.Pos()) + ")"
+							}
+						}
+						break
+					}
+					if _, isJ := last.(*ssa.Jump); isJ && !x.Succs[0].Dominates(x) {
+						x = x.Succs[0]
+						continue
+					}
+					break
+				}
+			}
+		}
+		c.R.Check(bad == "", "R12.12", "LoadLicenses: a path with fewer than three segments is skipped, not an error", p.Pos(ll.Pos()), fmt.Sprintf("%d tests of the number of path segments", nG),
+			"the branch for a path with too few segments returns an error in "+bad+": one stray file above the category/name/variant depth ends the load, and the licenses walked after it are missing")
+		c.R.RequireMin("R12.12", "tests of the number of path segments", nG, 1)
+	}
+
 	// R12.11: what is opened for one file of the corpus is released before the next file is looked at: no deferred call is
 	// queued inside a loop (a deferred Close runs when LoadLicenses returns - a corpus with more files than the process may
 	// have open descriptors then fails half way, unlike one AddContent per file)
